@@ -1720,7 +1720,16 @@ func S22(rc *RC) {
 				acc++
 				ok1 := n.Value == "($ret0 + ($coords["+lv+"] * %stride))" || n.Value == "(($coords["+lv+"] * %stride) + $ret0)"
 				ok2 := n.Value == "($ret0 + ($coords["+lv+"] * $strides["+lv+"]))" || n.Value == "(($coords["+lv+"] * $strides["+lv+"]) + $ret0)"
-				if !ok1 && !ok2 {
+				// the one-stride vector case may add its shared stride directly
+				ok3 := false
+				if n.Value == "($ret0 + ($coords["+lv+"] * $strides[0]))" || n.Value == "(($coords["+lv+"] * $strides[0]) + $ret0)" {
+					g := strings.Join(guards, " && ")
+					for name, def := range boolLets {
+						g = strings.ReplaceAll(g, name, "("+def+")")
+					}
+					ok3 = strings.Contains(g, "$shape.IsVector()") && strings.Contains(g, "len($strides)") && !strings.Contains(g, "!(") && !strings.HasPrefix(g, "!")
+				}
+				if !ok1 && !ok2 && !ok3 {
 					bad = append(bad, "the offset is accumulated as "+n.Value+", not as offset + coordinate * stride of the same axis")
 				}
 			}
